@@ -39,7 +39,7 @@ ANCHORS = [
     "job_shop_lib.reinforcement_learning._multi_job_shop_graph_env:MultiJobShopGraphEnv.reset",
 ]
 ASSUMPTIONS = ["the snapshot covers the public state of the built-in observers (jsverif/props/_snap.py)"]
-REQUIRED_COUNTERS = {"observers_created_mid_history": 30, "twin_pairs": 150, "env_episode_comparisons": 60, "multi_env_comparisons": 5,
+REQUIRED_COUNTERS = {"sparse_states_compared": 300, "observers_created_mid_history": 30, "twin_pairs": 150, "env_episode_comparisons": 60, "multi_env_comparisons": 5,
                      "trace_states_compared": 1000, "lazy_creations": 20}
 WORKERS = {"quick": 1, "thorough": 14}
 TOKENS = ["unsched", "remaining", "is_completed", "est", "duration", "is_ready", "is_scheduled",
@@ -61,6 +61,12 @@ def gen_cases(ctx):
                                           {"remove_completed_job_nodes": False}]),
                  late=rng.random() < 0.3,
                  prune=rng.choice([0, 0, 0, 1, 2, 5]))
+        yield c
+    for i in range(ctx.scale(600, 90000)):
+        # bare dispatcher, queried only now and then: an answer given at step k of an earlier
+        # episode must not come back at step k of a later one
+        c = gen_history_case(rng, max_jobs=rng.choice([2, 3, 4]), max_machines=rng.choice([2, 3, 4]))
+        c.update(kind="sparse", episodes=rng.choice([2, 2, 3]))
         yield c
     for i in range(ctx.scale(250, 48000)):
         c = gen_history_case(rng, max_jobs=rng.choice([2, 3, 4]), max_machines=rng.choice([2, 3]))
@@ -168,6 +174,40 @@ def run_twin(ctx, case):
                        "order": case["order"], "h1": h1, "h2": list(B.r.history)[:k]})
     ctx.note_case(case, bool(h1) and len(B.d.subscribers) >= 3, fingerprint=str(hash(
         (gen.fingerprint(inst), tuple(case["order"]), tuple(h1), tuple(B.r.history)))))
+    ctx.count("class_" + inst["cls"])
+
+
+def run_sparse(ctx, case):
+    rng = random.Random(case["seed"])
+    inst = case["instance"]
+    A = Run(inst, case.get("filter"))
+    diverged = False
+    for ep in range(case["episodes"]):
+        B = Run(inst, case.get("filter"))      # fresh twin for this episode
+        if ep:
+            A.d.reset(); A.r.reset()
+        k = 0
+        while not B.done():
+            o, m = B.choose(rng, rng.choice(gen.POLICIES))
+            A.dispatch(o, m); B.dispatch(o, m)
+            k += 1
+            if rng.random() < 0.4:
+                ctx.count("sparse_states_compared")
+                if ep:
+                    ctx.count("trace_states_compared")
+                sa, sb = state_of(A.d), state_of(B.d)
+                if sa != sb:
+                    ctx.violation("c12_reset_trace_differs_from_fresh",
+                                  {"episode": ep + 1, "step": k, "paths": _snap.diff_keys(sa, sb)[:10],
+                                   "observers": [], "history": list(B.r.history),
+                                   "queried": "only at some steps"})
+                    diverged = True
+                    break
+        if diverged:
+            break
+    ctx.count("sparse_twin_runs")
+    ctx.note_case(case, True, fingerprint=str(hash(
+        (gen.fingerprint(inst), "sparse", case["seed"]))))
     ctx.count("class_" + inst["cls"])
 
 
@@ -284,4 +324,5 @@ def run_multi_env(ctx, case):
 
 
 def run_case(ctx, case):
-    {"twin": run_twin, "env": run_env, "multi_env": run_multi_env}[case["kind"]](ctx, case)
+    {"twin": run_twin, "env": run_env, "multi_env": run_multi_env,
+     "sparse": run_sparse}[case["kind"]](ctx, case)
